@@ -251,6 +251,38 @@ def check_real(ctx, ns, path, N, batch, delta, rng):
                       scale=float(np.abs(x2).max()))
 
 
+def check_narrow_integers(ctx, ns, path, N, rng):
+    """uint8 / int16 images with a Python-integer spacing: the scaling must not be done in the image's own integer type."""
+    for dt in (np.uint8, np.int16, np.int8):
+        info = np.iinfo(dt)
+        x = rng.integers(max(info.min, -100), min(info.max, 250), (N, N)).astype(dt)
+        d = int(rng.choice([2, 3, 7]))
+        wit = {"path": path, "N": N, "dtype": str(np.dtype(dt)), "delta": d}
+        ctx.case("narrow_integer_image", key=(path, N, str(dt), d), nontrivial=True, sample=wit)
+        for nm, f in (("ft2", ns.ft2), ("ift2", ns.ift2), ("ft", ns.ft), ("ift", ns.ift)):
+            got = f(x, d)
+            want = f(x.astype(np.float64), float(d))
+            sc = float(np.abs(want).max()) + 1e-300
+            ctx.close(nm + "_integer_image_integer_spacing", got, want.astype(got.dtype), 1e-10 * sc, nm + ":integer_image_integer_spacing", wit, scale=sc)
+
+
+def check_deep_stack(ctx, ns, path, rng):
+    """More than 2^20 samples in one stack, frame count not a power of two: every frame is transformed."""
+    k, n = int(rng.choice([1500, 1100])), 32
+    x = rng.standard_normal((k, n, n))
+    wit = {"path": path, "frames": k, "N": n}
+    ctx.case("deep_stack", key=(path, k), nontrivial=True, sample=wit)
+    for nm, f, g in (("ft2", ns.ft2, ns.ift2), ("ift2", ns.ift2, ns.ft2), ("ft", ns.ft, ns.ift), ("ift", ns.ift, ns.ft)):
+        X = f(x, 0.25)
+        last = f(x[-1], 0.25)
+        mid = f(x[k // 2 + 1], 0.25)
+        sc = float(np.abs(last).max())
+        ctx.close(nm + "_deep_stack_last_frame", X[-1], last, 1e-11 * sc, nm + ":deep_stack_item", wit, scale=sc)
+        ctx.close(nm + "_deep_stack_middle_frame", X[k // 2 + 1], mid, 1e-11 * sc, nm + ":deep_stack_item", wit, scale=sc)
+        back = g(X, 1.0 / (n * 0.25))
+        ctx.close(nm + "_deep_stack_round_trip", back, x.astype(back.dtype), 1e-10, nm + ":deep_stack_round_trip", wit)
+
+
 class NS:
     pass
 
@@ -290,3 +322,7 @@ def run(ctx, spec):
                         check_real(ctx, ns, path, N, batch, delta, rng)
                 ctx.case("gaussian", key=(path, N, rep), nontrivial=N >= 80)
                 check_gaussian(ctx, ns, path, N, rng)
+                if N in (8, 16, 33):
+                    check_narrow_integers(ctx, ns, path, N, rng)
+        if spec["shard"] in (3, 11) and rep == 0:
+            check_deep_stack(ctx, mod_ns if spec["shard"] == 3 else top_ns, "module" if spec["shard"] == 3 else "top_level", rng)
